@@ -676,6 +676,7 @@ theorem inv_step {s : State} (h : Inv s) (op : Op) : Inv (step s op).1 := by
   | listen sc => exact inv_listen h sc
   | listen0 sc => exact inv_listen0 h sc
   | connect n => exact inv_connect h n
+  | connectL n => exact inv_connect h n
   | connect0 n => exact inv_connect0 h n
   | assign l b => exact inv_assign h l b
   | emit r v => exact inv_emit h r v
@@ -1080,6 +1081,7 @@ theorem finv_step {s : State} (hi : Inv s) (h : FInv s) (op : Op) (hf : needsFlu
   | listen sc => exact finv_listen hi h sc
   | listen0 sc => exact finv_listen0 hi h sc
   | connect n => exact finv_connect h n
+  | connectL n => exact finv_connect h n
   | connect0 n => exact finv_connect0 hi h n
   | assign l b => exact finv_assign h l b
   | emit r v => exact finv_emit hi h (hf rfl) r v
